@@ -26,11 +26,13 @@ def declare(E):
     E.contract("builtins.pow", argnames=["a", "b", "c"], returns="int", ensures=["implies(c >= 1, 0 <= result and result < c)"])
     E.contract(T + "_set_K_H", returns="none", ghost={"derived": "True"})
     E.contract(T + "_verify_key", returns="none", raises={"SSHException": "True"}, ghost={"verified": "True"})
-    E.contract(T + "_activate_outbound", returns="none", raises=dict(RA), ghost={"activated": "True"})
+    # (C09) _activate_outbound ends by expecting NEWKEYS; _expect_packet registers the next key-exchange packet
+    E.contract(T + "_activate_outbound", returns="none", raises=dict(RA), ghost={"activated": "True", "expecting": "True"})
+    E.declare_ghost(expecting="bool")
     E.contract(T + "_send_message", returns="none", ghost={"sent_count": "ghost('sent_count') + 1"},
                raises={k: {"when": "True", "ghost": {"send_failed": "True"}} for k in RA})
     E.declare_ghost(send_failed="bool")
-    E.contract(T + "_expect_packet", returns="none")
+    E.contract(T + "_expect_packet", returns="none", ghost={"expecting": "True"})
     E.contract(T + "get_server_key", returns="opaque:PKey")
     E.contract("PKey.asbytes", argnames=["self"], returns="bytes", ensures=["len(result) < 2**20"])
     E.contract("PKey.sign_ssh_data", argnames=["self", "data", "alg"], returns="bytes", ensures=["len(result) < 2**20"])
@@ -54,13 +56,17 @@ def declare(E):
     def handler(qn, extra_requires=None, extra_raises=None, ensures=None):
         r = {"msg_pos": "0 <= m.packet.tell() and m.packet.tell() <= len(m.packet.getvalue())",
              "fresh": "not ghost('activated') and not ghost('derived') and not ghost('point_validated')"
-                      " and not ghost('x_generated') and not ghost('send_failed') and not ghost('verified')"}
+                      " and not ghost('x_generated') and not ghost('send_failed') and not ghost('verified') and not ghost('expecting')"}
         r.update(extra_requires or {})
         raises = {"EOFError": "True", "OSError": "True", "struct.error": "True",
                   # a rejection (or any failure before verification) must not have switched keys on
                   "SSHException": "ghost('activated') == old(ghost('activated'))"}
         raises.update(extra_raises or {})
-        E.contract(qn, params={"m": "obj:Message"}, requires=r, ensures=ensures or {}, raises=raises, returns="none", modifies=None)
+        ens = dict(ensures or {})
+        # C09: a handler that returns has registered the next expected packet (or NEWKEYS via _activate_outbound), so during
+        # the first exchange there is always a pending expectation and every other packet is fatal under strict kex
+        ens["next_key_exchange_packet_is_expected_on_return"] = "ghost('expecting')"
+        E.contract(qn, params={"m": "obj:Message"}, requires=r, ensures=ens, raises=raises, returns="none", modifies=None)
 
     G1 = "paramiko.kex_group1.KexGroup1."
     handler(G1 + "_parse_kexdh_reply", ensures={"peer_f_was_in_range": "1 <= self.f and self.f <= self.P - 1",
